@@ -29,6 +29,7 @@ def run(ctx, rep):
     _lin.x5(ctx, rep)
     _lin.x6(ctx, rep)
     _lin.x8(ctx, rep)
+    _lin.x9(ctx, rep)
     from . import prog as _prog
     _prog.x7(ctx, rep)
     guard.x2(ctx, rep)
